@@ -108,9 +108,16 @@ def paths_to(cfg: CFG, target: Node, inputs: Dict[str, Any], sym: Callable[[ast.
                     else:
                         env[t.id] = v
                 elif isinstance(t, (ast.Tuple, ast.List)):
-                    for x in t.elts:
+                    # a, b = (x, y): element-wise when the shapes agree
+                    vals = v if (isinstance(v, tuple) and len(v) == len(t.elts)) else None
+                    if vals is None and isinstance(st.value, (ast.Tuple, ast.List)) and len(st.value.elts) == len(t.elts):
+                        vals = tuple(ev(e, env, sym) for e in st.value.elts)
+                    for i, x in enumerate(t.elts):
                         if isinstance(x, ast.Name):
-                            env.pop(x.id, None)
+                            if vals is None or vals[i] is UNKNOWN:
+                                env.pop(x.id, None)
+                            else:
+                                env[x.id] = vals[i]
         elif n.kind == "stmt" and isinstance(st, ast.AugAssign) and isinstance(st.target, ast.Name):
             env = dict(env)
             env.pop(st.target.id, None)
